@@ -383,6 +383,9 @@ func (procHarness) Gen(seed uint64, prop, tier string) *simkit.Program {
 		return p
 	}
 	p.Cfg["govchain"] = gc
+	if (prop == "C13" || prop == "C14") && r.P(0.3) {
+		p.Cfg["notifier"] = 1
+	}
 	if r.P(0.25) {
 		p.Cfg["loop"] = 1
 	}
